@@ -136,4 +136,43 @@ theorem run_pointwise (R : Str → Str → Prop) (hR : ∀ st a b, R a b → ste
     | error e => rfl
     | ok p => simp only [ih p.1]
 
+theorem splitNL_ne_nil (s : Str) : splitNL s ≠ [] := by
+  cases s with
+  | nil => simp [splitNL]
+  | cons c r =>
+    simp only [splitNL]
+    split
+    · simp
+    · split <;> simp
+
+/-- `(x + "\n" + y).split("\n") == x.split("\n") + y.split("\n")` -/
+theorem splitNL_append (x y : Str) : splitNL (x ++ '\n' :: y) = splitNL x ++ splitNL y := by
+  induction x with
+  | nil => simp [splitNL]
+  | cons c r ih =>
+    by_cases hc : c = '\n'
+    · subst hc; simp [splitNL, ih]
+    · simp only [List.cons_append, splitNL, hc, if_false, ih]
+      cases h : splitNL r with
+      | nil => exact absurd h (splitNL_ne_nil r)
+      | cons l ls => simp
+
+theorem splitNL_noNL (b : Str) (h : ∀ ch ∈ b, ch ≠ '\n') : splitNL b = [b] := by
+  induction b with
+  | nil => rfl
+  | cons c r ih =>
+    have hc : c ≠ '\n' := h c (by simp)
+    simp [splitNL, hc, ih (fun ch hch => h ch (by simp [hch]))]
+
+/-- one line with trailing whitespace appended, all others untouched -/
+theorem pointwise_one (R : Str → Str → Prop) (hrefl : ∀ l, R l l) (A B : List Str) (l l' : Str) (h : R l l') :
+    Pointwise R (A ++ l :: B) (A ++ l' :: B) := by
+  induction A with
+  | nil =>
+    refine Pointwise.cons h ?_
+    induction B with
+    | nil => exact Pointwise.nil
+    | cons b bs ih => exact Pointwise.cons (hrefl b) ih
+  | cons a as ih => exact Pointwise.cons (hrefl a) ih
+
 end NemoVerif.NumberedLines
